@@ -137,6 +137,10 @@ def declare(spec):
     # ended(g): the latest step of g returned or raised instead of yielding
     end_arr = arr_ghost('ended', z3.ArraySort(Gen.sort, z3.BoolSort()))
     spec.define('ended', lambda X, g: ZV(end_arr(X)[deref(g).t]))
+    retc_arr = arr_ghost('retc', z3.ArraySort(Gen.sort, z3.IntSort()))
+    retv_arr = arr_ghost('retv', z3.ArraySort(Gen.sort, Obj.sort))
+    spec.define('returns_so_far', lambda X, g: ZV(retc_arr(X)[deref(g).t]))
+    spec.define('returned_value', lambda X, g: ZV(retv_arr(X)[deref(g).t]))
     # marks over positions (ghost arrays Int -> Bool)
     MARKS = TScalar(z3.ArraySort(z3.IntSort(), z3.BoolSort()))
     spec._co_MARKS = MARKS
@@ -252,10 +256,15 @@ def declare(spec):
             r = T.open_site(X, c, node, result_T=TOpt(TReal), reenter=site.get('reenter', True),
                             raises=site.get('raises', ['StopIteration', '$OtherException']),
                             name='next(coroutine)')
-        except PyRaise:
+        except PyRaise as pr:
             # the step ended the generator (or failed): it yielded nothing
             X.ghost['yv_none'] = z3.Store(yvn_arr(X), v.t, z3.BoolVal(True))
             X.ghost['ended'] = z3.Store(end_arr(X), v.t, z3.BoolVal(True))
+            if pr.exc.cls == 'StopIteration' and 'value' in pr.exc.fields:
+                # ghost: the value the generator returned (carried by StopIteration)
+                rc = retc_arr(X)
+                X.ghost['retc'] = z3.Store(rc, v.t, rc[v.t] + 1)
+                X.ghost['retv'] = z3.Store(retv_arr(X), v.t, deref(pr.exc.fields['value']).t)
             raise
         X.ghost['ended'] = z3.Store(end_arr(X), v.t, z3.BoolVal(False))
         rl = TOpt(TReal).to_leaves(r)
@@ -343,7 +352,7 @@ def register_process(spec):
             'self._promises', 'self._timer']
     HAV = ALLF + ['ghost:steps', 'ghost:log', 'ghost:cnt', 'ghost:alloc_WRec', 'WRec.generator',
                   'WRec.wait_time', 'Prom.value', 'ghost:need', 'ghost:since', 'ghost:yv_none', 'ghost:yv_val',
-                  'ghost:ended']
+                  'ghost:ended', 'ghost:retc', 'ghost:retv']
     G_ = 'self._generators'
     waiting0 = '(g in old(%s) and old(%s)[g] != None)' % (G_, G_)
     kept = '(g in %s and %s[g] == old(%s)[g])' % (G_, G_, G_)
@@ -473,7 +482,14 @@ def register_process(spec):
                             % (stay('Q1[i]'), stay('Q1[k]')),
     }, **INV_T), havoc=HAV, vars={'gen': Gen, 'wait': TOpt(TReal), 'waiting_gen': WRec},
         entry={'T1': 'self._timer', 'Q1': 'self._active_queue'},
-        head={'hk': 'self._active_queue[0] in self._kill_queue'},
+        head={'hk': 'self._active_queue[0] in self._kill_queue', 'hd': 'self._active_queue[0]'},
+        body_ensures={
+            # C09: a coroutine that returns hands the returned object - whatever it is, falsy
+            # values included - to the promise it had when that last step began
+            'returned-value-handed-to-the-promise': (
+                'implies(returns_so_far(hd) > old(returns_so_far(hd)), '
+                'old(self._promises)[hd].value == returned_value(hd))'),
+        },
         ghost={'j': (TInt, '0', 'j + 1'),
                'skipped': (spec._co_MARKS, 'no_marks()', 'mark(skipped, j, hk)'),
                'W': (spec._co_POS, w_init, w_step)})
